@@ -56,6 +56,7 @@ func c20(w *World) {
 	}
 	w.Probe("logged_on")
 	stop := false
+	noMoreReg := false // registrations end before the sessions are stopped (a stopped session drops its handler pool)
 	running := 0
 	spawn := func(name string, f func(i int)) {
 		running++
@@ -93,7 +94,7 @@ func c20(w *World) {
 		spawn("ini-queries", func(i int) {
 			_ = in.S.IsLogged()
 			_ = in.S.Context().Err()
-			if i%7 == 0 {
+			if i%7 == 0 && !noMoreReg {
 				in.S.OnChangeState(utils.EventLogout, func() bool { return true })
 				in.H.HandleIncoming(fixgen.MsgTypeMarketDataRequest, func([]byte) bool { return true })
 				in.H.HandleOutgoing(simplefixgo.AllMsgTypes, func(simplefixgo.SendingMessage) bool { return true })
@@ -111,7 +112,7 @@ func c20(w *World) {
 		}
 		spawn("acc-queries", func(i int) {
 			_ = as.S.IsLogged()
-			if i%9 == 0 {
+			if i%9 == 0 && !noMoreReg {
 				as.S.OnChangeState(utils.EventLogout, func() bool { return true })
 				as.H.HandleIncoming(fixgen.MsgTypeMarketDataRequest, func([]byte) bool { return true })
 			}
@@ -137,6 +138,9 @@ func c20(w *World) {
 	}
 	simrt.Sleep(time.Duration(w.W.Draw(2000)) * time.Millisecond)
 	// endings: Stop / Logout / Close while traffic is still running
+	noMoreReg = true
+	simrt.Sleep(20 * time.Millisecond)
+	simrt.Settle()
 	for _, in := range inis {
 		switch w.W.Draw(4) {
 		case 0:
